@@ -567,6 +567,15 @@ func (a *Allocator) AllocationKey(svc string) string {
 	return ""
 }
 
+// Occupation describes what a service occupies: its addresses and the ports
+// it uses on them. It is empty if the service has no allocation.
+func (a *Allocator) Occupation(svc string) string {
+	if alloc := a.allocated[svc]; alloc != nil {
+		return fmt.Sprintf("%s %v", alloc.ips, alloc.ports)
+	}
+	return ""
+}
+
 // PoolForIP returns the pool structure associated with an IP.
 func (a *Allocator) PoolForIP(ips []net.IP) *config.Pool {
 	return poolFor(a.pools.ByName, ips)
